@@ -343,7 +343,28 @@ class EdgeQLSourceGenerator(codegen.SourceGenerator):
             self._write_keywords('OPTIONAL ')
         self.write(ident_to_str(node.iterator_alias))
         self._write_keywords(' IN ')
-        self.visit(node.iterator)
+        # the grammar only admits atomic expressions as a bare iterator
+        iterator = node.iterator
+        bare_iterator = isinstance(
+            iterator,
+            (
+                qlast.Path,
+                qlast.Set,
+                qlast.Tuple,
+                qlast.NamedTuple,
+                qlast.Array,
+                qlast.FunctionCall,
+                qlast.BaseConstant,
+                qlast.Parameter,
+                qlast.BinOp,
+                qlast.Query,
+            ),
+        )
+        if not bare_iterator:
+            self.write('(')
+        self.visit(iterator)
+        if not bare_iterator:
+            self.write(')')
         # guarantee an newline here
         self.new_lines = 1
         if node.has_union:
